@@ -176,4 +176,19 @@ CHECKS = {
             {"harness": "c12_kvmodel", "mode": "conc", "flavour": "asan", "runs": {"quick": 8000, "thorough": 800000}, "wall": {"quick": 15, "thorough": 900}, "seed_off": 2},
         ],
     },
+    "C20": {
+        "level": "exploration",
+        "rule": ("each run = a scratch tree (nested directories, inside- and outside-pointing symlinks to files and directories, an outside-pointing .gz sibling, secrets outside the "
+                 "root and in a sibling directory whose name extends the root's) served by Assets in filesystem-cached, per-request or embedded+external-directory mode; 1-3 lookup "
+                 "threads call getStatic/getTemplate with names from a traversal-aware generator and mutator (dot-dot, absolute, repeated/trailing separators, backslash, "
+                 "percent-encoding, NUL, long components, link names) while a swapper thread replaces final path components by outside-pointing symlinks and back; every "
+                 "lstat/stat/readlink/open/rename/symlink is a scheduling point; non-trivial = at least one context switch; distinct = distinct (interleaving hash, abstract state hash)"),
+        "real": ["iora::web::Assets (lexical rejection, weakly_canonical + containment, O_NOFOLLOW read, caches)", "libstdc++ std::filesystem", "the real file system and its symlink semantics"],
+        "stub": ["thread scheduling (baton scheduler; path operations are the scheduling points)"],
+        "assumptions": ["only FINAL path components are swapped (the code documents intermediate-component swaps as a residual, the property speaks of the final component)",
+                        "the cached mode may serve bytes it read before a swap"],
+        "jobs": [
+            {"harness": "c20_assets", "flavour": "asan", "runs": {"quick": 15000, "thorough": 1500000}, "wall": {"quick": 40, "thorough": 1500}},
+        ],
+    },
 }
